@@ -57,6 +57,7 @@ m_low = z3.Function("m_low", StrSort, z3.IntSort())        # minimal prefix bala
 m_ascii = z3.Function("m_ascii", StrSort, z3.BoolSort())   # all characters <= 0x7f
 val_str = z3.Function("val_str", ValSort, StrSort)         # str(v) for an opaque data value
 val_null = z3.Function("val_null", ValSort, z3.BoolSort())
+val_truthy = z3.Function("val_truthy", ValSort, z3.BoolSort())      # bool(v): unconstrained for non-null values (0, '' are falsy)
 
 
 # ----------------------------------------------------------------------------------------------
